@@ -71,14 +71,18 @@ fn suffix_ops(sel: u64) -> Vec<OpSpec> {
 }
 
 /// The recovered store must accept further writes, a flush, and a further restart.
-pub fn suffix_check(img: &Image, cfg: &CfgSpec, snap: Snapshot, sel: u64, max_id: Option<(u64, u64)>) -> Result<(), Fail> {
+/// `small_cache_ok`: the history before the crash holds no entry re-appended at or below an
+/// earlier id. Otherwise the recovered store may already sit in the known C07 window (an entry
+/// of the re-opened newest chunk at or below the boundary `open()` installs), and an empty cache
+/// would evict it: such images are continued with an unlimited cache only.
+pub fn suffix_check(img: &Image, cfg: &CfgSpec, snap: Snapshot, sel: u64, max_id: Option<(u64, u64)>, small_cache_ok: bool) -> Result<(), Fail> {
     let dir = fresh_dir("sfx");
     shadowfs::write_image(&dir, img).map_err(|e| Fail::new("harness-io", e.to_string()))?;
     trace::reset_acks();
     // half of the suffix runs use a cache that holds nothing, so that every entry of a closed
     // chunk is read back from disk after the recovery
     let mut cfg = cfg.clone();
-    if sel % 2 == 0 {
+    if sel % 2 == 0 && small_cache_ok {
         cfg.cache_items = Some(0);
         cfg.cache_cap = Some(0);
     }
@@ -242,7 +246,7 @@ impl Prop for C05 {
             if let Outcome::Prefix(i) = out {
                 if suffix_done.len() < suffix_budget && suffix_done.insert(i * 4 + (ci.kind.len() % 4)) {
                     *labels.entry("suffix_checked".into()).or_insert(0) += 1;
-                    suffix_check(&ci.img, &icfg, rec.model.prefix[i].clone(), mix(case.sel, ci.q as u64), max_id_of(&rec.model)).map_err(|mut f| {
+                    suffix_check(&ci.img, &icfg, rec.model.prefix[i].clone(), mix(case.sel, ci.q as u64), max_id_of(&rec.model), !rec.classes.has("reappend_at_or_below_earlier_id")).map_err(|mut f| {
                         f.msg = format!("{ctxs}: recovered the state after {i} records, then: {}; image: {}", f.msg, crash::describe_image(&ci.img));
                         f
                     })?;
